@@ -7,9 +7,10 @@ import build
 srcs = sys.argv[1].split(",")
 cfg = sys.argv[2]
 name = os.path.basename(srcs[0])[:-4]
-exe_s, exe_n, mods, st = build.build_sbv_harness(name, [os.path.join(VERIF, "harness", "sbv", s) for s in srcs])
+flags = [a for a in sys.argv[3:] if a.startswith("-")]
+exe_s, exe_n, mods, st = build.build_sbv_harness(name, [os.path.join(VERIF, "harness", "sbv", s) for s in srcs], extra_flags=flags)
 env = dict(os.environ, SBV_MODULES=mods, SYM_JOBS="16", SYM_DEADLINE_S="300", SYM_QUERY_S="20", SYM_OUT="/tmp/sbvrun.json")
-for kv in sys.argv[3:]:
+for kv in [a for a in sys.argv[3:] if not a.startswith("-")]:
     k, v = kv.split("=", 1)
     env[k] = v
 for f in os.listdir("/tmp"):
